@@ -355,12 +355,12 @@ make_IndexOf(const py::handle& m, const std::string& name) {
 
         py::object cupy_unowned_mem = py::module::import("cupy").attr("cuda").attr("UnownedMemory")(
             reinterpret_cast<ssize_t>(self.ptr().get()),
-            self.length() * sizeof(T),
+            (self.offset() + self.length()) * sizeof(T),
             self);
 
         py::object cupy_memoryptr = py::module::import("cupy").attr("cuda").attr("MemoryPointer")(
             cupy_unowned_mem,
-            0);
+            self.offset() * sizeof(T));
         py::object cuda_array = py::module::import("cupy").attr("ndarray")(
             pybind11::make_tuple(py::cast<ssize_t>(self.length())),
             py::format_descriptor<T>::format(),
@@ -389,7 +389,7 @@ make_IndexOf(const py::handle& m, const std::string& name) {
 
         dlm_tensor->dl_tensor.shape = dup_shape;
         dlm_tensor->dl_tensor.strides = dup_strides;
-        dlm_tensor->dl_tensor.byte_offset = 0;
+        dlm_tensor->dl_tensor.byte_offset = (uint64_t)(self.offset() * (int64_t)sizeof(T));
         dlm_tensor->dl_tensor.ctx = ak::dlpack::device_context_dispatch(self.ptr_lib(), self.ptr().get());
 
         py::object array = py::cast(self);
